@@ -63,6 +63,10 @@ PROPS['C20']['bridge'] += ['locks_sync_disciplined']
 # validate-first discipline of the command bodies (Generated/Purity, Bridge/Purity): no body can raise after it changed something
 PROPS['C08']['bridge'] += ['purity_bodies_validate_first', 'purity_covers_all_commands']
 
+# commands refused at queue time inside MULTI (fix F37, was KF-1)
+for _p in ('C04', 'C05', 'C10'):
+    PROPS[_p]['bridge'] += ['notInMulti_eq', 'msg_COMMAND_IN_MULTI_MSG_eq']
+
 # theorem lists are kept in a separate generated-by-hand table so that they can grow without touching the above
 try:
     from obligations import OBLIGATIONS
